@@ -35,12 +35,15 @@ def budget_s(tier):
 
 def levels(tier):
     if tier == "quick":
-        return [(2, 2, 2, "allorient", "perm", "all"), (2, 3, 3, "allorient", "three", "all"), (3, 3, 3, "allorient", "three", "some"), (3, 4, 2, "two", "two", "some")]
+        return [(2, 2, 2, "allorient", "perm", "all"), (2, 3, 3, "allorient", "three", "all"), (3, 3, 3, "allorient", "three", "some"), (3, 4, 2, "two", "two", "some"),
+                (3, 5, "twin", "two", "three", "some")]
     return [(2, 2, 2, "allorient", "perm", "all"), (2, 3, 3, "allorient", "three", "all"), (3, 3, 3, "allorient", "three", "all"),
-            (3, 4, 3, "two", "three", "some"), (4, 4, 2, "two", "two", "some")]
+            (3, 4, 3, "two", "three", "some"), (4, 4, 2, "two", "two", "some"), (3, 5, "twin", "allorient", "three", "some"), (4, 5, "twin", "two", "three", "some")]
 
 
 def kinds_for(b, max_reactive):
+    if max_reactive == "twin":
+        return dyn.kind_tuples(b, "twin")
     return [kt for kt in itertools.product(dyn.DK, repeat=b) if dyn.admissible(kt, max_reactive=max_reactive)]
 
 
@@ -61,7 +64,7 @@ def run_shard(desc):
     topo = sp.topologies(n, b)[ti]
     allk = kinds_for(b, mr)
     idl = c10.id_lists(b, im)
-    orients = list(range(2 ** b)) if om == "allorient" else [0b0101 & (2 ** b - 1), 0b0110 & (2 ** b - 1)]
+    orients = list(range(2 ** b)) if om == "allorient" else [0b01011 & (2 ** b - 1), 0b10110 & (2 ** b - 1)]
     for kt in allk[k0:k1]:
         ok, why = dyn.class_non_degenerate(topo, kt)
         res["evals"] += len(orients) * len(idl)
